@@ -23,3 +23,14 @@ func VerifC11SetDedupTimeout(c *Cache, d time.Duration) { c.wg = waitgroup.New(d
 
 // VerifC11DedupKeys is the number of keys currently registered for dedup.
 func VerifC11DedupKeys(c *Cache) int { return waitgroup.VerifLen(c.wg) }
+
+// VerifC11DedupLeader installs a dedup leader for key exactly as a leading
+// request does (JoinGeneration) and returns the function that finishes it
+// (DoneGeneration with the same token). ok=false: somebody leads already.
+func VerifC11DedupLeader(c *Cache, key uint64) (done func(), ok bool) {
+	g, leader := c.wg.JoinGeneration(key)
+	if !leader {
+		return func() {}, false
+	}
+	return func() { c.wg.DoneGeneration(key, g) }, true
+}
